@@ -4,5 +4,5 @@ cd /verif
 N=${1:-3}; J=${2:-6}
 run_line() { set -- $1; d=$1; shift; python3 tools/seeded.py run seeded/$d "$@" >> /tmp/matrix.log 2>&1; }
 export -f run_line
-grep -v '^#' tools/matrix.txt | grep . | xargs -P $N -I{} bash -c 'run_line "{}"'
+grep -v '^#' ${3:-tools/matrix.txt} | grep . | xargs -P $N -I{} bash -c 'run_line "{}"'
 echo MATRIX-DONE >> /tmp/matrix.log
